@@ -2,6 +2,7 @@
 """Record the digests of /repo's functions as the baseline the check compares against (harness/digests.py).
 Run after every commit to /repo (a "fix:" commit) once the checks are quiet on the new tree."""
 import sys, os, json, subprocess
+assert sys.version_info[:2] == (3, 12), "run with /venv/bin/python: the digests depend on the ast of the interpreter the check runs under"
 ROOT = os.path.dirname(os.path.dirname(os.path.abspath(__file__)))
 sys.path.insert(0, os.path.join(ROOT, 'harness'))
 import digests
